@@ -61,13 +61,13 @@ Definition is_unit_of (u d : Cplx R) : Prop :=
 Lemma is_unit_of_unit_of d : d <> (0, 0) -> is_unit_of (unit_of NR TR d) d.
 Proof. intros H. split; [apply unit_of_norm; exact H|apply unit_of_R]. Qed.
 
-Lemma unit_cubic s c1 c2 e t : cubic_d NR s c1 c2 e t 1 <> (0, 0) ->
-  exists u, cubic_unit_tangent NR TR s c1 c2 e t = Val u /\ is_unit_of u (cubic_d NR s c1 c2 e t 1).
+Lemma unit_cubic rp s c1 c2 e t : cubic_d NR s c1 c2 e t 1 <> (0, 0) ->
+  exists u, cubic_unit_tangent NR TR rp s c1 c2 e t = Val u /\ is_unit_of u (cubic_d NR s c1 c2 e t 1).
 Proof.
   intros H. eexists. split; [apply bezier_unit_tangent_regular; exact H|apply is_unit_of_unit_of, H].
 Qed.
-Lemma unit_quad s c e t : quad_d NR s c e t 1 <> (0, 0) ->
-  exists u, quad_unit_tangent NR TR s c e t = Val u /\ is_unit_of u (quad_d NR s c e t 1).
+Lemma unit_quad rp s c e t : quad_d NR s c e t 1 <> (0, 0) ->
+  exists u, quad_unit_tangent NR TR rp s c e t = Val u /\ is_unit_of u (quad_d NR s c e t 1).
 Proof.
   intros H. eexists. split; [apply bezier_unit_tangent_regular; exact H|apply is_unit_of_unit_of, H].
 Qed.
@@ -101,10 +101,10 @@ Lemma res_rel_map {A} (f : A -> A) (P : A -> A -> Prop) r :
   (forall a, P (f a) a) -> res_rel P (res_map f r) r.
 Proof. intros H. destruct r; cbn; auto. Qed.
 
-Lemma normal_all s c1 c2 e rx ry rot th de t :
+Lemma normal_all rp s c1 c2 e rx ry rot th de t :
   is_normal_of (line_normal NR TR s e t) (line_unit_tangent NR TR s e t) /\
-  res_rel is_normal_of (quad_normal NR TR s c1 e t) (quad_unit_tangent NR TR s c1 e t) /\
-  res_rel is_normal_of (cubic_normal NR TR s c1 c2 e t) (cubic_unit_tangent NR TR s c1 c2 e t) /\
+  res_rel is_normal_of (quad_normal NR TR rp s c1 e t) (quad_unit_tangent NR TR rp s c1 e t) /\
+  res_rel is_normal_of (cubic_normal NR TR rp s c1 c2 e t) (cubic_unit_tangent NR TR rp s c1 c2 e t) /\
   is_normal_of (arc_normal NR TR rx ry rot th de t) (arc_unit_tangent NR TR rx ry rot th de t).
 Proof.
   split; [apply mul_neg_i_normal|]. split; [apply res_rel_map, mul_neg_i_normal|].
@@ -158,19 +158,19 @@ Proof.
 Qed.
 
 (* ---------- similarity transforms z |-> w z + z0 (w = lambda e^{i theta} <> 0) ---------- *)
-Lemma tangent_similarity_cubic w z s c1 c2 e t :
+Lemma tangent_similarity_cubic rp w z s c1 c2 e t :
   w <> (0, 0) -> cubic_d NR s c1 c2 e t 1 <> (0, 0) ->
-  cubic_unit_tangent NR TR (aff w z s) (aff w z c1) (aff w z c2) (aff w z e) t
-  = res_map (cmul NR (unit_of NR TR w)) (cubic_unit_tangent NR TR s c1 c2 e t).
+  cubic_unit_tangent NR TR rp (aff w z s) (aff w z c1) (aff w z c2) (aff w z e) t
+  = res_map (cmul NR (unit_of NR TR w)) (cubic_unit_tangent NR TR rp s c1 c2 e t).
 Proof.
   intros Hw Hd. unfold cubic_unit_tangent. rewrite cubic_d1_affine.
   rewrite !bezier_unit_tangent_regular; [|exact Hd|apply cmul_nz; assumption].
   cbn [res_map]. f_equal. apply unit_of_cmul; assumption.
 Qed.
-Lemma tangent_similarity_quad w z s c e t :
+Lemma tangent_similarity_quad rp w z s c e t :
   w <> (0, 0) -> quad_d NR s c e t 1 <> (0, 0) ->
-  quad_unit_tangent NR TR (aff w z s) (aff w z c) (aff w z e) t
-  = res_map (cmul NR (unit_of NR TR w)) (quad_unit_tangent NR TR s c e t).
+  quad_unit_tangent NR TR rp (aff w z s) (aff w z c) (aff w z e) t
+  = res_map (cmul NR (unit_of NR TR w)) (quad_unit_tangent NR TR rp s c e t).
 Proof.
   intros Hw Hd. unfold quad_unit_tangent. rewrite quad_d1_affine.
   rewrite !bezier_unit_tangent_regular; [|exact Hd|apply cmul_nz; assumption].
@@ -207,11 +207,11 @@ Proof. intros H. destruct r; cbn; rewrite ?H; reflexivity. Qed.
 Lemma one_nz_c : ((1, 0) : Cplx R) <> (0, 0).
 Proof. intros E; inversion E; lra. Qed.
 
-Lemma tangent_translate s c1 c2 e t z : cubic_d NR s c1 c2 e t 1 <> (0, 0) ->
-  cubic_unit_tangent NR TR (aff (1, 0) z s) (aff (1, 0) z c1) (aff (1, 0) z c2) (aff (1, 0) z e) t
-  = cubic_unit_tangent NR TR s c1 c2 e t.
+Lemma tangent_translate rp s c1 c2 e t z : cubic_d NR s c1 c2 e t 1 <> (0, 0) ->
+  cubic_unit_tangent NR TR rp (aff (1, 0) z s) (aff (1, 0) z c1) (aff (1, 0) z c2) (aff (1, 0) z e) t
+  = cubic_unit_tangent NR TR rp s c1 c2 e t.
 Proof.
-  intros H. rewrite (tangent_similarity_cubic z one_nz_c H).
+  intros H. rewrite (tangent_similarity_cubic rp z one_nz_c H).
   rewrite unit_of_one. apply res_map_id, cmul_one.
 Qed.
 Lemma rot_nz th : (cos th, sin th) <> ((0, 0) : Cplx R).
@@ -220,32 +220,32 @@ Proof.
   assert (Hs : sin th = 0) by (apply (f_equal snd) in E; exact E).
   pose proof (sin2_cos2 th) as H. unfold Rsqr in H. rewrite Hc, Hs in H. lra.
 Qed.
-Lemma tangent_rotate s c1 c2 e t th z : cubic_d NR s c1 c2 e t 1 <> (0, 0) ->
-  cubic_unit_tangent NR TR (aff (cos th, sin th) z s) (aff (cos th, sin th) z c1)
+Lemma tangent_rotate rp s c1 c2 e t th z : cubic_d NR s c1 c2 e t 1 <> (0, 0) ->
+  cubic_unit_tangent NR TR rp (aff (cos th, sin th) z s) (aff (cos th, sin th) z c1)
                            (aff (cos th, sin th) z c2) (aff (cos th, sin th) z e) t
-  = res_map (cmul NR (cos th, sin th)) (cubic_unit_tangent NR TR s c1 c2 e t).
+  = res_map (cmul NR (cos th, sin th)) (cubic_unit_tangent NR TR rp s c1 c2 e t).
 Proof.
-  intros H. rewrite (tangent_similarity_cubic z (@rot_nz th) H).
+  intros H. rewrite (tangent_similarity_cubic rp z (@rot_nz th) H).
   rewrite unit_of_rot. reflexivity.
 Qed.
-Lemma tangent_scale s c1 c2 e t (l : R) z : 0 < l -> cubic_d NR s c1 c2 e t 1 <> (0, 0) ->
-  cubic_unit_tangent NR TR (aff (l, 0) z s) (aff (l, 0) z c1) (aff (l, 0) z c2) (aff (l, 0) z e) t
-  = cubic_unit_tangent NR TR s c1 c2 e t.
+Lemma tangent_scale rp s c1 c2 e t (l : R) z : 0 < l -> cubic_d NR s c1 c2 e t 1 <> (0, 0) ->
+  cubic_unit_tangent NR TR rp (aff (l, 0) z s) (aff (l, 0) z c1) (aff (l, 0) z c2) (aff (l, 0) z e) t
+  = cubic_unit_tangent NR TR rp s c1 c2 e t.
 Proof.
   intros Hl H. assert (Hw : ((l, 0) : Cplx R) <> (0, 0)) by (intros E; inversion E; lra).
-  rewrite (tangent_similarity_cubic z Hw H).
+  rewrite (tangent_similarity_cubic rp z Hw H).
   rewrite unit_of_pos_real by exact Hl. apply res_map_id, cmul_one.
 Qed.
-Lemma tangent_reversed_cubic s c1 c2 e t : cubic_d NR s c1 c2 e t 1 <> (0, 0) ->
-  cubic_unit_tangent NR TR e c2 c1 s (1 - t)
-  = res_map (copp NR) (cubic_unit_tangent NR TR s c1 c2 e t).
+Lemma tangent_reversed_cubic rp s c1 c2 e t : cubic_d NR s c1 c2 e t 1 <> (0, 0) ->
+  cubic_unit_tangent NR TR rp e c2 c1 s (1 - t)
+  = res_map (copp NR) (cubic_unit_tangent NR TR rp s c1 c2 e t).
 Proof.
   intros H. unfold cubic_unit_tangent. rewrite cubic_d1_reversed.
   rewrite !bezier_unit_tangent_regular; [|exact H|apply copp_nz; exact H].
   cbn [res_map]. f_equal. apply unit_of_copp.
 Qed.
-Lemma tangent_reversed_quad s c e t : quad_d NR s c e t 1 <> (0, 0) ->
-  quad_unit_tangent NR TR e c s (1 - t) = res_map (copp NR) (quad_unit_tangent NR TR s c e t).
+Lemma tangent_reversed_quad rp s c e t : quad_d NR s c e t 1 <> (0, 0) ->
+  quad_unit_tangent NR TR rp e c s (1 - t) = res_map (copp NR) (quad_unit_tangent NR TR rp s c e t).
 Proof.
   intros Hq. unfold quad_unit_tangent. rewrite quad_d1_reversed.
   rewrite !bezier_unit_tangent_regular; [|exact Hq|apply copp_nz; exact Hq].
@@ -346,12 +346,12 @@ Qed.
 (* what the code returns there: the principal square root of the squared direction *)
 Lemma singular_value s c1 c2 e t0 :
   (cubic_d NR s c1 c2 e t0 1 = (0, 0) -> cubic_d NR s c1 c2 e t0 2 <> (0, 0) ->
-   cubic_unit_tangent NR TR s c1 c2 e t0 = Val (principal_dir (cubic_d NR s c1 c2 e t0 2))) /\
+   cubic_unit_tangent NR TR false s c1 c2 e t0 = Val (principal_dir (cubic_d NR s c1 c2 e t0 2))) /\
   (cubic_d NR s c1 c2 e t0 1 = (0, 0) -> cubic_d NR s c1 c2 e t0 2 = (0, 0) ->
    cubic_d NR s c1 c2 e t0 3 <> (0, 0) ->
-   cubic_unit_tangent NR TR s c1 c2 e t0 = Val (principal_dir (cubic_d NR s c1 c2 e t0 3))) /\
+   cubic_unit_tangent NR TR false s c1 c2 e t0 = Val (principal_dir (cubic_d NR s c1 c2 e t0 3))) /\
   (quad_d NR s c1 e t0 1 = (0, 0) -> quad_d NR s c1 e t0 2 <> (0, 0) ->
-   quad_unit_tangent NR TR s c1 e t0 = Val (principal_dir (quad_d NR s c1 e t0 2))) /\
+   quad_unit_tangent NR TR false s c1 e t0 = Val (principal_dir (quad_d NR s c1 e t0 2))) /\
   (forall w, w <> (0, 0) ->
      (right_half w -> principal_dir w = unit_of NR TR w) /\
      (left_half w -> principal_dir w = copp NR (unit_of NR TR w)) /\
@@ -367,9 +367,9 @@ Qed.
 Lemma singular_limit_partial s c1 c2 e t0 :
   cubic_d NR s c1 c2 e t0 1 = (0, 0) -> cubic_d NR s c1 c2 e t0 2 <> (0, 0) ->
   (right_half (cubic_d NR s c1 c2 e t0 2) ->
-     exists u, lim_right (quot_cubic s c1 c2 e) t0 u /\ cubic_unit_tangent NR TR s c1 c2 e t0 = Val u) /\
+     exists u, lim_right (quot_cubic s c1 c2 e) t0 u /\ cubic_unit_tangent NR TR false s c1 c2 e t0 = Val u) /\
   (left_half (cubic_d NR s c1 c2 e t0 2) ->
-     exists u, lim_left (quot_cubic s c1 c2 e) t0 u /\ cubic_unit_tangent NR TR s c1 c2 e t0 = Val u).
+     exists u, lim_left (quot_cubic s c1 c2 e) t0 u /\ cubic_unit_tangent NR TR false s c1 c2 e t0 = Val u).
 Proof.
   intros H1 H2. destruct (limit_direction_cubic H1) as [L _]. destruct (L H2) as [A B].
   split; intros Hh; eexists; (split; [eassumption|]).
@@ -390,7 +390,7 @@ Lemma singular_sign_general s c1 c2 e t0 :
   cubic_d NR s c1 c2 e t0 1 = (0, 0) -> cubic_d NR s c1 c2 e t0 2 <> (0, 0) ->
   left_half (cubic_d NR s c1 c2 e t0 2) ->
   exists u, lim_right (quot_cubic s c1 c2 e) t0 u /\
-            cubic_unit_tangent NR TR s c1 c2 e t0 = Val (copp NR u) /\ copp NR u <> u.
+            cubic_unit_tangent NR TR false s c1 c2 e t0 = Val (copp NR u) /\ copp NR u <> u.
 Proof.
   intros H1 H2 Hh. destruct (limit_direction_cubic H1) as [L _]. destruct (L H2) as [A _].
   eexists. split; [exact A|]. split.
@@ -403,7 +403,7 @@ Lemma singular_sign_general_left s c1 c2 e t0 :
   cubic_d NR s c1 c2 e t0 1 = (0, 0) -> cubic_d NR s c1 c2 e t0 2 <> (0, 0) ->
   right_half (cubic_d NR s c1 c2 e t0 2) ->
   exists u, lim_left (quot_cubic s c1 c2 e) t0 u /\
-            cubic_unit_tangent NR TR s c1 c2 e t0 = Val (copp NR u) /\ copp NR u <> u.
+            cubic_unit_tangent NR TR false s c1 c2 e t0 = Val (copp NR u) /\ copp NR u <> u.
 Proof.
   intros H1 H2 Hh. destruct (limit_direction_cubic H1) as [L _]. destruct (L H2) as [_ B].
   eexists. split; [exact B|]. split.
@@ -431,7 +431,7 @@ Qed.
 Lemma singular_sign_witness :
   exists u, cubic_d NR w_s w_c1 w_c2 w_e 0 1 = (0, 0) /\
             lim_right (quot_cubic w_s w_c1 w_c2 w_e) 0 u /\ fst u < 0 /\
-            cubic_unit_tangent NR TR w_s w_c1 w_c2 w_e 0 = Val (copp NR u) /\ copp NR u <> u.
+            cubic_unit_tangent NR TR false w_s w_c1 w_c2 w_e 0 = Val (copp NR u) /\ copp NR u <> u.
 Proof.
   assert (H2 : cubic_d NR w_s w_c1 w_c2 w_e 0 2 <> (0, 0)).
   { rewrite witness_d2. intros E; inversion E; lra. }
@@ -446,6 +446,61 @@ Proof.
     { rewrite <- Q1. field. lra. } lra.
   - rewrite (cubic_singular_k1 witness_d1 H2). f_equal. apply principal_dir_left; assumption.
   - apply copp_unit_ne, unit_of_norm, H2.
+Qed.
+
+(* ---------- the repaired fallback returns the limit from inside [0,1] ---------- *)
+Lemma Req_b_false x y : x <> y -> Req_b x y = false.
+Proof. intros H. unfold Req_b. destruct (Req_EM_T x y); congruence. Qed.
+
+Lemma singular_limit_repaired_cubic s c1 c2 e t0 : cubic_d NR s c1 c2 e t0 1 = (0, 0) ->
+  (cubic_d NR s c1 c2 e t0 2 <> (0, 0) -> t0 <> 1 ->
+     exists u, lim_right (quot_cubic s c1 c2 e) t0 u /\ cubic_unit_tangent NR TR true s c1 c2 e t0 = Val u) /\
+  (cubic_d NR s c1 c2 e t0 2 <> (0, 0) -> t0 = 1 ->
+     exists u, lim_left (quot_cubic s c1 c2 e) t0 u /\ cubic_unit_tangent NR TR true s c1 c2 e t0 = Val u) /\
+  (cubic_d NR s c1 c2 e t0 2 = (0, 0) -> cubic_d NR s c1 c2 e t0 3 <> (0, 0) ->
+     exists u, lim_right (quot_cubic s c1 c2 e) t0 u /\ lim_left (quot_cubic s c1 c2 e) t0 u /\
+  cubic_unit_tangent NR TR true s c1 c2 e t0 = Val u).
+Proof.
+  intros H1. destruct (limit_direction_cubic H1) as [L1 L2]. split; [|split].
+  - intros H2 Ht. destruct (L1 H2) as [A _]. eexists. split; [exact A|].
+    rewrite (cubic_repaired_k1 H1 H2). unfold travel_dir. rewrite (Req_b_false Ht). reflexivity.
+  - intros H2 Ht. destruct (L1 H2) as [_ B]. eexists. split; [exact B|].
+    rewrite (cubic_repaired_k1 H1 H2). unfold travel_dir. subst t0.
+    rewrite (proj2 (Req_b_true 1 1) eq_refl). reflexivity.
+  - intros H2 H3. destruct (L2 H2) as [A B]. eexists. split; [exact A|]. split; [exact B|].
+    apply (cubic_repaired_k2 H1 H2 H3).
+Qed.
+Lemma singular_limit_repaired_quad s c e t0 :
+  quad_d NR s c e t0 1 = (0, 0) -> quad_d NR s c e t0 2 <> (0, 0) ->
+  (t0 <> 1 -> exists u, lim_right (quot_quad s c e) t0 u /\ quad_unit_tangent NR TR true s c e t0 = Val u) /\
+  (t0 = 1 -> exists u, lim_left (quot_quad s c e) t0 u /\ quad_unit_tangent NR TR true s c e t0 = Val u).
+Proof.
+  intros H1 H2. destruct (limit_direction_quad H1 H2) as [A B]. split; intros Ht.
+  - eexists. split; [exact A|].
+    rewrite (quad_repaired_k1 H1 H2). unfold travel_dir. rewrite (Req_b_false Ht). reflexivity.
+  - eexists. split; [exact B|].
+    rewrite (quad_repaired_k1 H1 H2). unfold travel_dir. subst t0.
+    rewrite (proj2 (Req_b_true 1 1) eq_refl). reflexivity.
+Qed.
+(* the witness of the defect, on the repaired variant *)
+Lemma singular_witness_repaired :
+  exists u, lim_right (quot_cubic w_s w_c1 w_c2 w_e) 0 u /\ fst u < 0 /\
+  cubic_unit_tangent NR TR true w_s w_c1 w_c2 w_e 0 = Val u.
+Proof.
+  destruct singular_sign_witness as (u & H1 & L & Hneg & _).
+  assert (H2 : cubic_d NR w_s w_c1 w_c2 w_e 0 2 <> (0, 0)).
+  { rewrite witness_d2. intros E; inversion E; lra. }
+  destruct (singular_limit_repaired_cubic H1) as [P _].
+  destruct (P H2) as (u' & L' & V); [lra|].
+  destruct (limit_direction_cubic H1) as [Q _]. destruct (Q H2) as [A _].
+  exists (unit_of NR TR (cubic_d NR w_s w_c1 w_c2 w_e 0 2)). split; [exact A|]. split.
+  - assert (Hh : left_half (cubic_d NR w_s w_c1 w_c2 w_e 0 2)) by (rewrite witness_d2; left; cbn; lra).
+    pose proof (unit_of_half_left H2 Hh) as [G|[G1 G2]]; [exact G|].
+    exfalso. revert G1. rewrite witness_d2, unit_of_R. cbn [fst snd].
+    assert (Pn : 0 < nrm (-6, 6)) by (apply nrm_pos; intros E; inversion E; lra).
+    intros G1. assert (-6 = 0 * nrm (-6, 6)) by (rewrite <- G1; field; lra). lra.
+  - rewrite (cubic_repaired_k1 H1 H2). unfold travel_dir.
+    rewrite Req_b_false by lra. reflexivity.
 Qed.
 
 (* ---------- executable witnesses of the same defect ---------- *)
